@@ -3,7 +3,7 @@
 # baseline-stable tests that did not pass (expected: 446 passed, 13 always-failing tests).
 REPO="${1:-/repo}"
 OUT="$(mktemp /tmp/vt-junit-XXXXXX.xml)"
-cd "$REPO" && env -u TTCONV_VERIF /venv/bin/python -m pytest -ra -q -p no:cacheprovider --timeout=900 --continue-on-collection-errors --junitxml="$OUT" >/dev/null 2>&1
+cd "$REPO" && env -u TTCONV_VERIF PYTHONPATH="$REPO/src/main/python" /venv/bin/python -m pytest -ra -q -p no:cacheprovider --timeout=900 --continue-on-collection-errors --junitxml="$OUT" >/dev/null 2>&1
 /venv/bin/python - "$OUT" <<'PY'
 import sys, json, xml.etree.ElementTree as et
 root = et.parse(sys.argv[1]).getroot()
